@@ -130,7 +130,18 @@ fn exec_op(op: Op) -> String {
             RoundingMode::set_default(mode_to_fpdec(Mode::from_index(m)));
             "set".to_string()
         }
-        Op::Get => format!("mode {}", mode_index(RoundingMode::default())),
+        Op::Get => {
+            // the path call and the Default trait (by name, and from generic code) must agree
+            fn generic_default<T: Default>() -> T {
+                T::default()
+            }
+            let (a, b, c) = (RoundingMode::default(), <RoundingMode as Default>::default(), generic_default::<RoundingMode>());
+            if a == b && b == c {
+                format!("mode {}", mode_index(a))
+            } else {
+                format!("mode {} but <RoundingMode as Default>::default() = {:?}, T::default() = {:?}", mode_index(a), b, c)
+            }
+        }
         Op::Round { x, n } => format!("{}", vcore::common::op(|| x.dec().round(n))),
         Op::DivRounded { x, y, n } => format!("{}", vcore::common::op(|| x.dec().div_rounded(y.dec(), n))),
         Op::MulRounded { x, y, n } => format!("{}", vcore::common::op(|| x.dec().mul_rounded(y.dec(), n))),
